@@ -391,6 +391,9 @@ var items = []item{
 type SplitInput struct {
 	Place []int   `json:"place"` // block of each item: 0 main, 1 submodule s1, 2 submodule s2
 	Cross [2]bool `json:"cross"` // s1 includes s2, s2 includes s1
+	// TwoRevs: two revisions of m are loaded, both with this body and these includes; each must be
+	// the whole module
+	TwoRevs bool `json:"two_revisions,omitempty"`
 }
 
 func splitFiles(in SplitInput) []dump.File {
@@ -408,6 +411,11 @@ func splitFiles(in SplitInput) []dump.File {
 	}
 	s1 := `submodule s1 { belongs-to m { prefix m; }` + inc[1] + body[1] + ` }`
 	s2 := `submodule s2 { belongs-to m { prefix m; }` + inc[2] + body[2] + ` }`
+	if in.TwoRevs {
+		h := `module m { namespace "urn:m"; prefix m; include s1; include s2;`
+		return []dump.File{{Name: "m@2020-01-01.yang", Text: h + " revision 2020-01-01;" + body[0] + ` }`}, {Name: "s1.yang", Text: s1}, {Name: "s2.yang", Text: s2},
+			{Name: "m@2021-06-30.yang", Text: h + " revision 2021-06-30;" + body[0] + ` }`}}
+	}
 	return []dump.File{{Name: "m.yang", Text: main}, {Name: "s1.yang", Text: s1}, {Name: "s2.yang", Text: s2}}
 }
 
@@ -437,11 +445,13 @@ func resolvable(in SplitInput) bool {
 }
 
 // mainTree dumps only what belongs to module m (entry tree and identities), positions off.
-func mainTree(ms *yang.Modules) string {
+func mainTree(ms *yang.Modules) string { return mainTreeOf(ms, "m") }
+
+func mainTreeOf(ms *yang.Modules, key string) string {
 	var sb strings.Builder
-	m := ms.Modules["m"]
+	m := ms.Modules[key]
 	if m == nil {
-		return "<no module m>"
+		return "<no module " + key + ">"
 	}
 	e := yang.ToEntry(m)
 	dump.Entry(&sb, e, "", dump.Options{NoExtra: true}, map[*yang.Entry]bool{})
@@ -484,6 +494,33 @@ func checkSplit(in SplitInput) *fail {
 			unsplit = mainTree(r.MS)
 		}
 		files := splitFiles(in)
+		if in.TwoRevs {
+			cl := []string{"two-revisions-include-one-submodule"}
+			for _, order := range [][]int{{0, 1, 2, 3}, {3, 2, 1, 0}, {1, 3, 2, 0}} {
+				var fs []dump.File
+				for _, k := range order {
+					fs = append(fs, files[k])
+				}
+				r := dump.Run(fs, dump.Options{})
+				for _, e := range r.LoadErrs {
+					if e != "" {
+						f = &fail{"split-load-error", "loads", e, cl}
+						return
+					}
+				}
+				if len(r.ProcErrs) > 0 {
+					f = &fail{"split-process-errors", "no errors", dump.Errors(r.ProcErrs), cl}
+					return
+				}
+				for _, key := range []string{"m@2021-06-30", "m@2020-01-01"} {
+					if got := mainTreeOf(r.MS, key); got != unsplit {
+						f = &fail{"a-revision-lacks-what-its-submodules-define", key + ":\n" + unsplit, got, cl}
+						return
+					}
+				}
+			}
+			return
+		}
 		for _, order := range [][]int{{0, 1, 2}, {2, 1, 0}, {1, 0, 2}} {
 			r := dump.Run([]dump.File{files[order[0]], files[order[1]], files[order[2]]}, dump.Options{})
 			for _, e := range r.LoadErrs {
@@ -759,6 +796,25 @@ func run(c *core.Ctx) {
 						c.Sample(string(b))
 					}
 				}
+				if cnt%16 == 3 || c.Tier == "thorough" {
+					// the same partition as two revisions of m that both include the submodules
+					in2 := in
+					in2.TwoRevs = true
+					caseNo, run := c.Begin()
+					if c.Skip(caseNo, run, Input{Split: &in2}) {
+						continue
+					}
+					c.Exec()
+					c.Edge(3)
+					c.StateN(1)
+					c.Validate()
+					c.NontrivialN(1)
+					if f := checkSplit(in2); f != nil {
+						report(caseNo, Input{Split: &in2}, f)
+					} else {
+						c.Outcome("split-equals-unsplit-in-both-revisions")
+					}
+				}
 			}
 		}
 	}
@@ -849,7 +905,7 @@ func permute(a []int, f func([]int)) {
 func init() {
 	core.Register(&core.Prop{
 		ID: "C13", Variant: "plain", Shards: shards, Run: run, Replay: replay,
-		Rule:        "rev: every sequence (with repeats) of header variants of one module name whose revision lists are {}, {r1}, {r2}, {r2,r1}, {r1,r2}, {r3,r2}, and a second text with {r1}, as modules (import) and as submodules (include): a load is rejected iff the same latest revision of the name is already loaded, the bare key and a date-less import/include bind the latest loaded revision, a dated one binds exactly that revision when loaded, and all orders of one multiset reach the same registry and bindings; file: every layout of candidate and near-miss names (a.yang, a@date.yang, ab.yang, ab@date.yang, a@bad.yang, a@2022-1-1.yang, ...) over two search-path directories (the current directory is empty), as real files whose content identifies them: Modules.Read must open the file the reference chooser picks (first directory with a candidate; name.yang, else latest date; never a near miss) or fail when there is none; split: 9 body items (typedef, users of it, grouping, uses, identities, identityref, augment of an own node, rpc) in every partition into main module + 2 submodules with every cross-include pattern under which references stay visible, 3 load orders: the main module's tree and identities must dump exactly like the unsplit module. states = distinct sequences/layouts/partitions",
+		Rule:        "rev: every sequence (with repeats) of header variants of one module name whose revision lists are {}, {r1}, {r2}, {r2,r1}, {r1,r2}, {r3,r2}, and a second text with {r1}, as modules (import) and as submodules (include): a load is rejected iff the same latest revision of the name is already loaded, the bare key and a date-less import/include bind the latest loaded revision, a dated one binds exactly that revision when loaded, and all orders of one multiset reach the same registry and bindings; file: every layout of candidate and near-miss names (a.yang, a@date.yang, ab.yang, ab@date.yang, a@bad.yang, a@2022-1-1.yang, ...) over two search-path directories (the current directory is empty), as real files whose content identifies them: Modules.Read must open the file the reference chooser picks (first directory with a candidate; name.yang, else latest date; never a near miss) or fail when there is none; split: 9 body items (typedef, users of it, grouping, uses, identities, identityref, augment of an own node, rpc) in every partition into main module + 2 submodules with every cross-include pattern under which references stay visible, 3 load orders: the main module's tree and identities must dump exactly like the unsplit module; every 16th partition (thorough: every one) also as two revisions of the main module that both include the submodules - each revision must be the whole module. states = distinct sequences/layouts/partitions",
 		Assumptions: []string{"when a dated import names a revision that is not loaded the statement is silent and nothing is compared", "partitions in which a submodule would need a definition of its owner or of a submodule it does not include are excluded (visibility inside submodules is not what C13 claims)", "no symlinks, permission errors or concurrent modification of the directories"},
 	})
 }
